@@ -454,7 +454,10 @@ impl ParserVisitor for Pull<'_> {
                         Some(Err(e)) => {
                             clock::probe(Probe::PeekAtError);
                             if cursor == m && t.end == End::Err(e.clone()) {
-                                return None; // history stops at the first error
+                                // peek consumes nothing, not even an error: a repeated peek
+                                // and the following next must report the same error (the
+                                // history ends when NEXT has returned it)
+                                continue;
                             }
                             return Some((
                                 "MODEL(peek)".to_string(),
